@@ -181,6 +181,7 @@ type verifC08State struct {
 	n       int
 	inSync  bool         // the database answers as of cachedDBRound
 	dbAt    basics.Round // the round the database reports
+	levels  [4]uint64    // ghost: RewardsLevel of round D+i
 }
 
 var verifC08Versions = [4]protocol.ConsensusVersion{"vC08-0", "vC08-1", "vC08-2", "vC08-3"}
@@ -209,7 +210,8 @@ func verifC08Base(n int) *verifC08State {
 	au.kvStore = make(map[string]modifiedKvValue)
 	au.creatables = make(map[basics.CreatableIndex]ledgercore.ModifiedCreatable)
 	au.versions = []protocol.ConsensusVersion{verifC08Versions[0]}
-	au.roundTotals = []ledgercore.AccountTotals{{RewardsLevel: vr.U64("level0")}}
+	s.levels[0] = vr.U64("level0")
+	au.roundTotals = []ledgercore.AccountTotals{{RewardsLevel: s.levels[0]}}
 	au.deltasAccum = []int{0}
 	s.au = au
 	return s
@@ -226,7 +228,8 @@ func (s *verifC08State) push(i int, sd ledgercore.StateDelta) {
 	au := s.au
 	au.deltas = append(au.deltas, sd)
 	au.versions = append(au.versions, verifC08Versions[i+1])
-	au.roundTotals = append(au.roundTotals, ledgercore.AccountTotals{RewardsLevel: vr.U64(verifC08Labels[i] + ".level")})
+	s.levels[i+1] = vr.U64(verifC08Labels[i] + ".level")
+	au.roundTotals = append(au.roundTotals, ledgercore.AccountTotals{RewardsLevel: s.levels[i+1]})
 	au.deltasAccum = append(au.deltasAccum, au.deltasAccum[len(au.deltasAccum)-1]+sd.Accts.Len())
 }
 
@@ -441,7 +444,7 @@ func verifC08AcctRun(n int) {
 	if err == nil {
 		vr.Assert("c08.acct.value-is-history-value", data == hist[off])
 		vr.Assert("c08.acct.rewards-version-of-round", ver == verifC08Versions[off])
-		vr.Assert("c08.acct.rewards-level-of-round", level == au.roundTotals[off].RewardsLevel)
+		vr.Assert("c08.acct.rewards-level-of-round", level == s.levels[off])
 		vr.Assert("c08.acct.validthrough-in-window", validThrough >= rnd && validThrough <= s.dbRound+basics.Round(n))
 		vr.Assert("c08.acct.unchanged-until-validthrough", hist[uint64(validThrough-s.dbRound)] == data)
 	}
